@@ -6,7 +6,7 @@ compares what the tools would do: GNU make itself reports the Make side (`make -
 for the dependency relation); the Ninja side is read with the evaluator of specs/ninja_eval.py (no ninja binary exists
 in the sandbox); command lines are cut into argument lists with the sh word spec.  Documented backend-specific
 differences that are normalised away: Ninja-only `-fdiagnostics-color`; Make's directory sentinels (`x/.dir`, mkdir,
-touch) and its depfixer post-processing line; the regeneration statement itself; `./` in front of a path."""
+touch), its stamp file for a step with several outputs (`touch x.stamp`) and its depfixer post-processing line; the regeneration statement itself; `./` in front of a path."""
 import json
 import os
 import re
@@ -39,6 +39,9 @@ out = build_step('out.txt', cmd=['sh', tool, build_step.input], files=['data.txt
 gen = build_step('gen.txt', cmd=['cp', source_file('in.txt'), 'gen.txt'])
 link = copy_file('link.txt', gen, mode='symlink')
 final = build_step('final.txt', cmd=['cp', link, 'final.txt'])
+deep = copy_file('links/deep/d.txt', gen, mode='symlink')
+stamp = build_step('now.txt', cmd=['touch', 'now.txt'], always_outdated=True)
+pair = build_step(['p1.txt', 'p2.txt'], cmd=['touch', 'p1.txt', 'p2.txt'], always_outdated=True)
 test(t)
 """
 # what the script of PROJECT_C describes: {target: prerequisites} for the steps it declares itself (objects and
@@ -46,15 +49,42 @@ test(t)
 GRAPH_C = {
     'gen.h': {'{src}/gen.h.in'}, 'tool.sh': {'{src}/tool.sh.in'},
     'out.txt': {'{src}/data.txt', 'tool.sh', '{src}/notes.txt'},
-    'gen.txt': {'{src}/in.txt'}, 'link.txt': {'gen.txt'}, 'final.txt': {'link.txt'},
+    'gen.txt': {'{src}/in.txt'}, 'link.txt': {'gen.txt'}, 'final.txt': {'link.txt'}, 'links/deep/d.txt': {'gen.txt'},
     'libfoo.a': {'libfoo.int/a.o'}, 't': {'t.int/main.o', 'libfoo.a'},
     'prog': {'prog.int/s.o', 'prog.int/main.o', 'libfoo.a'},
     'prog.int/main.o': {'{src}/main.c', '{src}/api.h', 'gen.h'}, 'prog.int/s.o': {'{src}/s.c', '{src}/api.h', 'gen.h'},
     'all': {'prog', 'libfoo.a'},        # programs and libraries that are not test-only; steps are built on demand
     'tests': {'t'},
 }
+# an implicitly created precompiled header with explicitly passed (source and generated) headers; a program that needs
+# a runner (java) handed to test(); install() decides the default set
+PROJECT_D = """
+project('s')
+hdr = header_file('api.h')
+genh = build_step('gen.h', cmd=['cp', source_file('gen.h.in'), 'gen.h'])
+prog = executable('prog', files=['s.c'], pch='pre.h', includes=[hdr, genh])
+other = executable('other', files=['main.c'])
+jt = executable('jt', files=['Jt.java'], entry_point='Jt')
+test(jt)
+"""
+GRAPH_D = {
+    'gen.h': {'{src}/gen.h.in'},
+    'pre.h.gch': {'{src}/pre.h', '{src}/api.h', 'gen.h'},
+    'prog.int/s.o': {'{src}/s.c', '{src}/api.h', 'gen.h', 'pre.h.gch'},
+    'prog': {'prog.int/s.o'}, 'other': {'other.int/main.o'},
+    'all': {'prog', 'other'},           # every linked binary that was not handed to test()
+    'tests': {'jt.jar'},
+}
+GRAPH_DI = dict(GRAPH_D, all={'prog'})  # exactly what install() was given
+# the same script configured for another architecture without a prefix: installation is disabled (warning), the graph
+# and the default set are the same
+TOOLCHAIN_X = "target_platform('linux', 'aarch64')\n"
 PROJECTS = {'libraries': (PROJECT_A, None), 'steps-and-specials': (PROJECT_B, None),
-            'described-graph': (PROJECT_C, GRAPH_C)}
+            'described-graph': (PROJECT_C, GRAPH_C), 'pch-and-runner': (PROJECT_D, GRAPH_D),
+            'install-decides-default': (PROJECT_D + 'install(prog)\n', GRAPH_DI),
+            'install-disabled': (PROJECT_D + 'install(prog)\n', GRAPH_DI, TOOLCHAIN_X),
+            # a package file but no install(): deploying the packages is the only install action (stub `mopack`)
+            'package-file-only': ("project('m')\nexecutable('p', files=['main.c'])\n", None, None, True)}
 
 
 def norm_path(p):
@@ -175,6 +205,8 @@ class CrossBackend(Bounded):
             for f in ('s.c', 's2.c', 's3.c', 'a.c', 'template.c'):
                 w(f, 'int fn_%s(void) { return 0; }\n' % f.replace('.', '_'))
             w('main.c', 'int main(void) { return 0; }\n')
+            w('pre.h', '#include <stdio.h>\n')
+            w('Jt.java', 'public class Jt { public static void main(String[] a) { } }\n')
             w('README', '')
             w('data/in put.txt', 'x')
             os.makedirs(top + '/bin')
@@ -194,7 +226,20 @@ class CrossBackend(Bounded):
                 return subprocess.run(cmd, env=env, capture_output=True, text=True, timeout=300, **kw)
             bm, bn = top + '/bm', top + '/bn'
             for be, b in (('make', bm), ('ninja', bn)):
-                r = run([top + '/bin/bfg9000', 'configure-into', src, b, '--backend=' + be, '--no-resolve-packages'])
+                spec = PROJECTS[raw['project']] + (None, None)
+                extra_args = ['--no-resolve-packages']
+                if spec[2]:
+                    w('cross.bfg', spec[2])
+                    extra_args += ['--toolchain', src + '/cross.bfg']
+                if spec[3]:
+                    # no usable mopack in the sandbox: a stub that resolves nothing and lists the package file
+                    w('mopack.yml', 'packages: {}\n')
+                    with open(top + '/bin/mopack', 'w') as f:
+                        f.write("#!/bin/sh\ncase \"$1\" in list-files) echo '[\"%s/mopack.yml\"]';; "
+                                "resolve) mkdir -p \"$3/mopack\"; echo '{}' > \"$3/mopack/mopack.json\";; esac\nexit 0\n" % src)
+                    os.chmod(top + '/bin/mopack', 0o755)
+                    extra_args = ['-p', src + '/mopack.yml']
+                r = run([top + '/bin/bfg9000', 'configure-into', src, b, '--backend=' + be] + extra_args)
                 if r.returncode != 0:
                     return self.fail(case, raw, 'configure_succeeds', backend=be, stderr=r.stderr[-500:])
             nf = NinjaFile(open(bn + '/build.ninja').read())
@@ -222,7 +267,7 @@ class CrossBackend(Bounded):
                     raise RuntimeError((r.stdout + r.stderr)[-400:])
                 out = []
                 for l in r.stdout.splitlines():
-                    if re.match(r"^(mkdir -p '|touch '.*/\.dir'$|make(\[\d+\])?: )", l) or 'bfg9000-depfixer <' in l or \
+                    if re.match(r"^(mkdir -p '|touch '.*/\.dir'$|touch '?[^ ']*\.stamp'?$|make(\[\d+\])?: )", l) or 'bfg9000-depfixer <' in l or \
                             l.endswith('bfg9000 regenerate --lazy'):
                         continue
                     out.append(l)
@@ -271,6 +316,13 @@ class CrossBackend(Bounded):
                 deps = d.split('|')[0].split()
                 tn = norm_path(t.strip().replace('\\ ', ' '))
                 m_edges[tn] = sorted({norm_path(x) for x in deps})
+            # Make's device for a step with several outputs: every output depends on `<first>.stamp`, which carries the
+            # prerequisites and the recipe
+            stamped = {}
+            for t, d in list(m_edges.items()):
+                if len(d) == 1 and d[0].endswith('.stamp') and d[0] in m_edges:
+                    stamped[t] = d[0]
+                    m_edges[t] = m_edges[d[0]]
             files_n = {o for o in n_edges if o not in ('build.ninja',) and not o.startswith('pkgconfig/')}
             for o in sorted(files_n):
                 if o not in m_edges:
@@ -279,6 +331,18 @@ class CrossBackend(Bounded):
                 nd = sorted({norm_path(t) for d in n_edges[o] for t in d.split(' ')})
                 if m_edges[o] != nd:
                     return self.fail(case, raw, 'same_dependency_relation', file=o, make=m_edges[o], ninja=nd)
+            # ---- steps that are always out of date, and the goals that exist ----------------------------------------
+            n_phony = {norm_path(o) for b_ in nf.builds if b_.rule != 'phony' and 'PHONY' in b_.inputs + b_.implicit
+                       for o in b_.outputs}
+            produced_n = {norm_path(o) for b_ in nf.builds if b_.rule not in ('phony', 'regenerate') for o in b_.outputs}
+            m_phony = set(m_edges.get('.PHONY', []))
+            m_always = {t for t in produced_n if t in m_phony or stamped.get(t) in m_phony}
+            if m_always != n_phony:
+                return self.fail(case, raw, 'same_always_outdated_steps', make=sorted(m_always), ninja=sorted(n_phony))
+            m_goals = {g for g in SPECIAL if g in m_edges}
+            if m_goals != set(n_special):
+                return self.fail(case, raw, 'same_goals', only_make=sorted(m_goals - set(n_special)),
+                                 only_ninja=sorted(set(n_special) - m_goals))
             # ---- the graph the script describes (projects that come with one) -------------------------------------
             graph = PROJECTS[raw['project']][1]
             if graph:
